@@ -46,6 +46,10 @@ def conn_class(max_in_flight, orphaned_threshold, initial_ids=None):
     return C09Connection
 
 
+class NotEnabled(Exception):
+    """A recorded history asks for an event that the current tree does not offer at that point."""
+
+
 class SpinClock(object):
     """Virtual clock on which a busy-wait makes time pass.  HostConnection.borrow_connection spins on
     time.time() without sleeping while its connection is closed and not yet replaced; on a clock that
@@ -176,6 +180,16 @@ class W9(ReqWorld):
         tag = tag_of_request(p.req)
         self.server.respond(p, wire.OP_RESULT, wire.result_rows(ROWS_COLS, [[tag]], p.req['version']), deliver=True)
 
+    def answer_retry(self, p):
+        """The server answers 'overloaded' and the retry policy says: again on the same host (the request is sent
+        again, same tag, on a newly borrowed stream id, from an executor task)."""
+        if p.stream in p.conn.orphaned_request_ids and not (p.conn.is_closed or p.conn.is_defunct):
+            self.flags.add('late')
+        self.flags.add('retry')
+        self.retry.next = ('RETRY', None)
+        self.server.respond(p, wire.OP_ERROR, wire.error(wire.ERR_OVERLOADED, 'ov'), deliver=True)
+        self.retry.next = ('RETHROW', None)
+
     def timeout_timers(self):
         """[(future, timer)] live client-timeout timers"""
         out = []
@@ -234,6 +248,8 @@ class W9(ReqWorld):
             evs.append((('send',), 0))
         for k in range(len(self.pending())):
             evs.append((('respond', k), 0))
+            if p.get('retry_kind'):
+                evs.append((('respond', k, 'retry'), 0))
         for f, t in self.timeout_timers():
             evs.append((('timeout', self.futures.index(f)), 0))
         if self.w.tasks:
@@ -247,11 +263,16 @@ class W9(ReqWorld):
         return evs
 
     def apply(self, ev):
+        if ev not in [e for e, _ in self.enabled()]:
+            raise NotEnabled('event %r is not enabled here (enabled: %r)' % (ev, [e for e, _ in self.enabled()]))
         k = ev[0]
         if k == 'send':
             self.send()
         elif k == 'respond':
-            self.answer(self.pending()[ev[1]])
+            if len(ev) > 2:
+                self.answer_retry(self.pending()[ev[1]])
+            else:
+                self.answer(self.pending()[ev[1]])
         elif k == 'timeout':
             self.fire_timeout(self.futures[ev[1]])
         elif k == 'task':
@@ -268,7 +289,7 @@ class W9(ReqWorld):
     def canon(self):
         now = self.w.clock._now
         conns = tuple((c.vid, c.is_control_connection, c.is_closed, c.is_defunct, c.in_flight, tuple(c.request_ids),
-                       c.highest_request_id, tuple(sorted(c._requests)), tuple(sorted(c.orphaned_request_ids)),
+                       c.highest_request_id, tuple(sorted(c._requests, key=repr)), tuple(sorted(c.orphaned_request_ids, key=repr)),
                        c.orphaned_threshold_reached, c.signaled_error) for c in self.w.conns)
         futs = tuple((f._vtag, f._event.is_set(), len(o.results), len(o.errors), type(f._final_exception).__name__,
                       f._req_id, f._connection.vid if f._connection is not None else None)
@@ -322,10 +343,10 @@ def judge(st, part, data, site):
         if c.is_closed or c.is_defunct:
             continue
         outstanding = sorted(q.stream for q in st.server.pending if q.conn is c)
-        waited, orph, free = sorted(c._requests), sorted(c.orphaned_request_ids), list(c.request_ids)
+        waited, orph, free = sorted(c._requests, key=repr), sorted(c.orphaned_request_ids, key=repr), list(c.request_ids)
         desc = ('connection #%d: in_flight=%d _requests=%r orphaned=%r free=%r highest=%d; unanswered on the wire: %r'
                 % (c.vid, c.in_flight, waited, orph, free, c.highest_request_id, outstanding))
-        if c.highest_request_id > st.max_id or any(not 0 <= i <= st.max_id for i in free + waited + orph):
+        if c.highest_request_id > st.max_id or any(not (isinstance(i, int) and 0 <= i <= st.max_id) for i in free + waited + orph):
             part.violation('C09/stream-id-beyond-max/state/%s' % site, desc, data)
         if len(set(free)) != len(free):
             part.violation('C09/free-id-duplicated/%s' % site, desc, data)
